@@ -27,6 +27,8 @@ META = {
     "assumption that translation catalogues are translator-authored. `safe` and register_translation_filters("
     "autoescape_message=False) are the documented opt-outs. __html__ of user objects is outside the claim.",
 }
+META["technique"] += "; typestate over the trusted stringifiers' own bodies (every return escaped when auto_escape is true)"
+META["level_text"] += ' Also decided (S4): to_liquid_string/_to_liquid_string themselves return only escaped text on every path when auto_escape is true.'
 
 
 def _is_render_method(fi: FunctionInfo) -> bool:
